@@ -4,11 +4,14 @@
 PROPS = {
     "C01": {
         "rule": "seeded runs of real iodined + 1..3 real iodine clients over all query types/codecs/lazy/-m/-M/raw with bidirectional tun traffic "
-                "(1 byte .. 60 KB) and swarm-randomised drop/dup/delay fates; non-trivial = handshake completed, at least one tun delivery and at least "
+                "(1 byte .. 60 KB) and swarm-randomised drop/dup/delay fates; plus mode stale: a clean path on which answers from 4-7 packets back (which the 3-bit sequence numbers cannot tell from new "
+                "ones) are delivered again between the fragments of multi-fragment packets, with incompressible frames that carry complete zlib streams aligned with the fragment boundaries (so a "
+                "mis-reassembled packet would still inflate); non-trivial = handshake completed, at least one tun delivery and at least "
                 "one fault fired; distinct = distinct run fingerprints (FNV-1a over every datagram, tun read/write, select wake-up and exit)",
         "jobs": [
             {"scen": "tunnel", "sets": {"mode": "faulty"}, "quick": 3000, "thorough": 120000},
             {"scen": "tunnel", "sets": {"mode": "faulty", "raw": True}, "quick": 600, "thorough": 20000},
+            {"scen": "tunnel", "sets": {"mode": "stale"}, "quick": 1200, "thorough": 60000},
         ],
         "expect_probes": ["c01.offered", "c01.written", "c01.offered.tiny", "c01.offered.huge", "srv.raw_session"],
     },
